@@ -77,6 +77,15 @@ CHECKS = {
         "components": COMPONENTS,
         "assumptions": ["the reference model implements the half-aggregation draft equation; s >= n rejection cannot be exercised by any constructible input on the real group (see property text)"],
     },
+    "C18": {
+        "worlds": [{"name": "xdh", "variants": {"quick": ["ship", "asan"], "thorough": ["ship", "asan", "alt"]},
+                    "runs": {"quick": 10000, "thorough": 500000}, "secondary_share": 0.15}],
+        "rule": "one run = one seeded Plan: 1..4 two-party sessions (plain ECDH with compressed/uncompressed/hybrid keys, or ElligatorSwift with create/encode), every hasher choice "
+                "incl. a failing callback, erased secret-key records, role confusion, network faults incl. zero/FF fill and misdelivery; non-trivial = a fault fired and a comparison "
+                "with the group-law model happened after it; distinct = distinct Plan hash",
+        "components": COMPONENTS,
+        "assumptions": ["the model implements XSwiftEC per BIP-324 and the group law independently; the u^3+t^2+7=0 family and single-coordinate zeros are input-space and reached only through zero/FF-filled records"],
+    },
     "C20": {
         "worlds": [
             {"name": "ctx", "variants": {"quick": ["cov", "ship"], "thorough": ["cov", "ship", "alt", "asan"]},
